@@ -73,7 +73,57 @@ class Discharger:
         self._run()
 
     # ------------------------------------------------------------------
+    def _iteration_key_sites(self):
+        """Subscripts X[k] whose key k is the variable of an enclosing
+        `for k in X` / `for k in X.keys()` / `for k in list(X)` (loop or
+        comprehension) over the same mapping X, with nothing removed from X
+        inside that loop: the key is present.  -> {id(node): reason}"""
+        out = {}
+        for q, fi in self.m.funcs.items():
+            for nd in walk_own(fi.node):
+                if not (isinstance(nd, ast.Subscript) and
+                        isinstance(nd.ctx, ast.Load) and
+                        isinstance(nd.slice, ast.Name)):
+                    continue
+                base = unparse(nd.value)
+                forms = {base, base + '.keys()', 'list(%s)' % base,
+                         'list(%s.keys())' % base, 'sorted(%s)' % base,
+                         'tuple(%s)' % base}
+                k = nd.slice.id
+                p = getattr(nd, '_parent', None)
+                child = nd
+                while p is not None and not isinstance(
+                        p, (ast.FunctionDef, ast.AsyncFunctionDef)):
+                    gens = []
+                    if isinstance(p, ast.For) and child in p.body:
+                        gens = [(p.target, p.iter, p.body)]
+                    elif isinstance(p, (ast.ListComp, ast.SetComp,
+                                        ast.DictComp, ast.GeneratorExp)):
+                        gens = [(g.target, g.iter, []) for g in p.generators]
+                    for tgt, it, body in gens:
+                        names = [tgt.id] if isinstance(tgt, ast.Name) else []
+                        if k in names and unparse(it) in forms:
+                            txt = ' '.join(unparse(b) for b in body)
+                            removed = any(
+                                ('%s.%s(' % (base, m_)) in txt
+                                for m_ in ('pop', 'popitem', 'clear')) or \
+                                ('del %s[' % base) in txt
+                            rebound = any(
+                                isinstance(x, ast.Name) and x.id == k and
+                                isinstance(x.ctx, ast.Store)
+                                for b in body for x in ast.walk(b))
+                            if not removed and not rebound:
+                                out[id(nd)] = ('key drawn from iterating '
+                                               'the same mapping (%s)'
+                                               % unparse(it))
+                    child = p
+                    p = getattr(p, '_parent', None)
+        return out
+
     def _run(self):
+        self.iter_keys = self._iteration_key_sites()
+        for k, why in self.iter_keys.items():
+            self.reasons[k] = why
         by_fn = {}
         seen = set()
         for op in self.R.partial_ops:
@@ -95,7 +145,9 @@ class Discharger:
                 if op.kind == 'call' and \
                         (id(op.node), op.exc) in self.R.handled_ops:
                     continue
-                if op.kind == 'subscript':
+                if op.kind == 'subscript' and id(op.node) in self.iter_keys:
+                    why = (True, self.iter_keys[id(op.node)])
+                elif op.kind == 'subscript':
                     if paths is None:
                         paths = self.I.run(fi)
                     why = self._subscript(fi, op, paths)
